@@ -127,7 +127,8 @@ Inductive dop :=
 | DAge                                              (* more than a prune interval passes *)
 | DRead (r : N) (fail : bool)                        (* fail: injected I/O error of the file read *)
 | DMigrate (v start : N) (calls : list (N * (N * N) * N))
-    (* per migrateSector call: from index, target, outcome 0 ok | 1 read failed | 2 root mismatch | 3 write failed *)
+    (* per migrateSector call: from index, target, outcome 0 ok | 1 read failed | 2 root mismatch | 3 write failed
+       | 4 refused, the sector is being written (not an outcome of the code as it is; fixes/C02-migrate-in-flight.patch) *)
 | DShrinkT (v n : N) | DRemoveT (v : N) (force : bool)
 | DRemoveSector (r : N)
 | DPrune
@@ -207,6 +208,9 @@ Fixpoint dmigrate (fuel : nat) (v start index : N) (calls : list (N * (N * N) * 
                | (fidx, to, code) :: rest =>
                    if negb ((fidx =? idx)%N && mig_valid_target (md d) v start to) then (d, ODBad)
                    else if (code =? 1)%N then dmigrate f v start (idx + 1)%N rest mig (fail + 1)%N d
+                   else if (code =? 4)%N then
+                     (* only with fixes/C02-migrate-in-flight.patch: migrateSector refuses a sector that is being written *)
+                     (if in_flight r (thr d) then dmigrate f v start (idx + 1)%N rest mig (fail + 1)%N d else (d, ODBad))
                    else
                      let c := content d v idx in
                      let d1 := with_cache d (cadd (csize d) r c (cache d)) in   (* readLocation caches what it read *)
@@ -379,10 +383,11 @@ Fixpoint dcheck (cs : list dcase) : list (N * nat * dobs) :=
    and every flag deletion), a cache-miss ReadSector and migrateSector (readLocation locks vm.mu),
    another RemoveSector, Close (waits for the thread group).  A disabled step leaves the state
    alone and answers [ODBad]: an implementation that takes it anyway does not correspond.
-   NOT modelled as a hazard: MigrateSectors calls migrateSector inside a store transaction, and
-   the store has one connection; a RemoveSector (or ResizeVolume) that holds vm.mu and then asks
-   for the connection while a migration callback waits for vm.mu never returns.  That schedule
-   is a deadlock of the code (liveness), here it is simply "not enabled".
+   At THIS granularity migrateSector and a cache-miss ReadSector are single steps and the store's
+   connection is implicit; the second finer layer below ([ystep]) cuts them and makes the
+   connection explicit — there the schedule "MigrateSectors holds the only connection while its
+   callback waits for vm.mu, RemoveSector holds vm.mu and waits for the connection" is a
+   reachable state in which neither party can move ([deadlocked]).
    [lock = false] is the variant without the critical section (vm.mu taken for the map lookup
    only): nothing is disabled.  [xlost] is a ghost: the roots an operator deleted explicitly. *)
 Inductive rsphase := RsLocated | RsCommitted | RsZeroed.
@@ -485,5 +490,206 @@ Fixpoint xcheck (cs : list xcase) : list (N * nat * dobs) :=
       match xfirst_mismatch (xinit size) 0 l with
       | None => xcheck t
       | Some (i, m) => (id, i, m) :: xcheck t
+      end
+  end.
+
+(** * Finer steps, second layer (work package W): migrateSector and a cache-miss ReadSector cut at
+   their internal steps; the store's single connection explicit
+
+   persist/sqlite/volumes.go, MigrateSectors — per sector ONE transaction, which holds the only
+   database connection from its first statement to its commit:
+
+       tx begins; SELECT the first occupied slot >= index; emptyLocationForMigration   YMgBegin v start index to
+       migrateFn = VolumeManager.migrateSector(from, to):
+         readLocation(from): vm.mu (map lookup), read the file, cache.Add(root, bytes)     YMgRead fail
+         root check ("sector corrupt")                                                     (part of YMgRead)
+         vm.mu (map lookup); vol.WriteSector(bytes, to.Index)                              YMgWrite ok
+         vol.Sync()                                                                        YMgSync ok
+       UPDATE old slot NULL, new slot := sector; usage counters; commit                  YMgCommit
+
+   host/storage/storage.go, ReadSector on a cache miss:
+
+       vs.SectorLocation(root)                  YRdLocate t r    (a store call; refreshes the last access)
+       readLocation: vm.mu (lookup), read file  YRdFile t fail
+       vm.cache.Add(root, bytes); return        YRdCache t
+
+   While a migration transaction is open every step that needs the connection is NOT enabled
+   ([takes_conn]: every store call — DMeta, DReserve, a failing DWrite's rollback, a cache-miss
+   read's SectorLocation, prune, shrink, removal, RemoveSector's two store calls ...); the steps
+   that need vm.mu (YMgRead, YMgWrite, YRdFile) are not enabled while a RemoveSector holds it.
+   A RemoveSector that holds vm.mu and still has a store call to make (phase RsLocated) together
+   with an open migration transaction that has not read yet is the DEADLOCK of the code as it is
+   ([deadlocked]): neither can take a step, only a crash ends it.
+   A disabled step leaves the state alone and answers [ODBad]. *)
+Inductive mgphase := MgBegun | MgRead | MgWritten | MgSynced.
+
+Record mgst := { mg_v : N; mg_start : N; mg_idx : N; mg_r : N; mg_to : N * N; mg_ph : mgphase }.
+
+Record ystate := {
+  yx : xstate;
+  ymg : option mgst;                              (* the migration transaction holding the connection *)
+  yrd : list (N * (N * (N * N) * option N)) }.    (* cache-miss reads in progress: t -> (root, location read, bytes read) *)
+
+Definition yinit (size : N) : ystate := {| yx := xinit size; ymg := None; yrd := [] |}.
+
+Inductive yop :=
+| YX (o : xop)
+| YMgBegin (v start index : N) (to : N * N)
+| YMgRead (fail : bool)
+| YMgWrite (ok : bool)
+| YMgSync (ok : bool)
+| YMgCommit
+| YRdLocate (t r : N)
+| YRdFile (t : N) (fail : bool)
+| YRdCache (t : N).
+
+(* steps that make a store call *)
+Definition takes_conn (o : xop) (d : dstate) : bool :=
+  match o with
+  | XD (DMeta _) | XD (DReserve _ _ _) | XD (DMigrate _ _ _) | XD (DShrinkT _ _) | XD (DRemoveT _ _)
+  | XD (DRemoveSector _) | XD DPrune | XD DRestart => true
+  | XD (DWrite t ok) =>
+      match alookup t (thr d) with
+      | Some (_, v, _) => negb (ok && is_some (vget v (vols (md d))))   (* the rollback transaction *)
+      | None => false
+      end
+  | XD (DRead r _) => is_none (cget r (cache d))
+  | XRsLocate _ | XRsCommit => true
+  | _ => false
+  end.
+
+Definition set_mg (y : ystate) (m : option mgst) : ystate := {| yx := yx y; ymg := m; yrd := yrd y |}.
+Definition set_yd (y : ystate) (d : dstate) : ystate :=
+  {| yx := {| xd := d; xmu := xmu (yx y); xlost := xlost (yx y) |}; ymg := ymg y; yrd := yrd y |}.
+
+Definition ystep (y : ystate) (o : yop) : ystate * dobs :=
+  let x := yx y in
+  let d := xd x in
+  match o with
+  | YX (XD DCrash) =>
+      let '(x', b) := xstep x (XD DCrash) in ({| yx := x'; ymg := None; yrd := [] |}, b)
+  | YX o' =>
+      if is_some (ymg y) && takes_conn o' d then (y, ODBad)
+      else let '(x', b) := xstep x o' in ({| yx := x'; ymg := ymg y; yrd := yrd y |}, b)
+  | YMgBegin v start index to =>
+      match ymg y with
+      | Some _ => (y, ODBad)
+      | None =>
+          match next_occ index (slots_of v (md d)) None with
+          | None => (y, ODBad)
+          | Some (idx, r) =>
+              if mig_has_target (md d) v start && mig_valid_target (md d) v start to
+              then (set_mg y (Some {| mg_v := v; mg_start := start; mg_idx := idx; mg_r := r; mg_to := to; mg_ph := MgBegun |}),
+                    OM (OLoc (Some (v, idx))))
+              else (y, ODBad)
+          end
+      end
+  | YMgRead fail =>
+      match ymg y, xmu x with
+      | Some m, None =>
+          match mg_ph m with
+          | MgBegun =>
+              if fail then (set_mg y None, OReadErr)
+              else
+                let c := content d (mg_v m) (mg_idx m) in
+                let y1 := set_yd y (with_cache d (cadd (csize d) (mg_r m) c (cache d))) in
+                if (c =? mg_r m)%N
+                then (set_mg y1 (Some {| mg_v := mg_v m; mg_start := mg_start m; mg_idx := mg_idx m; mg_r := mg_r m; mg_to := mg_to m; mg_ph := MgRead |}),
+                      ORead false c)
+                else (set_mg y1 None, ORead false c)       (* "sector corrupt": the callback fails, nothing is committed *)
+          | _ => (y, ODBad)
+          end
+      | _, _ => (y, ODBad)
+      end
+  | YMgWrite ok =>
+      match ymg y, xmu x with
+      | Some m, None =>
+          match mg_ph m with
+          | MgRead =>
+              if ok && is_some (vget (fst (mg_to m)) (vols (md d)))
+              then (set_mg (set_yd y (with_files d (disk d) (kset (fst (mg_to m)) (snd (mg_to m)) (mg_r m) (pend d))))
+                           (Some {| mg_v := mg_v m; mg_start := mg_start m; mg_idx := mg_idx m; mg_r := mg_r m; mg_to := mg_to m; mg_ph := MgWritten |}),
+                    OM (ORes (Ok tt)))
+              else (set_mg y None, OM (ORes (Err EOther)))
+          | _ => (y, ODBad)
+          end
+      | _, _ => (y, ODBad)
+      end
+  | YMgSync ok =>
+      match ymg y with
+      | Some m =>
+          match mg_ph m with
+          | MgWritten =>
+              if ok
+              then (set_mg (set_yd y (sync_vol (fst (mg_to m)) d))
+                           (Some {| mg_v := mg_v m; mg_start := mg_start m; mg_idx := mg_idx m; mg_r := mg_r m; mg_to := mg_to m; mg_ph := MgSynced |}),
+                    OM (ORes (Ok tt)))
+              else (set_mg y None, OM (ORes (Err EOther)))
+          | _ => (y, ODBad)
+          end
+      | None => (y, ODBad)
+      end
+  | YMgCommit =>
+      match ymg y with
+      | Some m =>
+          match mg_ph m with
+          | MgSynced =>
+              match mig_move (mg_v m) (mg_idx m) (mg_r m) (mg_to m) (md d) with
+              | Ok s => (set_mg (set_yd y (with_md d s)) None, OM (ORes (Ok tt)))
+              | Err e => (set_mg y None, OM (ORes (Err EOther)))
+              | Panic => (set_mg y None, OM (ORes Panic))
+              end
+          | _ => (y, ODBad)
+          end
+      | None => (y, ODBad)
+      end
+  | YRdLocate t r =>
+      if is_some (ymg y) || is_some (alookup t (yrd y)) || is_some (cget r (cache d)) then (y, ODBad)
+      else match locate r (md d) with
+           | None => (y, OReadErr)
+           | Some loc => ({| yx := {| xd := touch r d; xmu := xmu x; xlost := xlost x |}; ymg := ymg y;
+                             yrd := (t, (r, loc, None)) :: yrd y |}, OM (OLoc (Some loc)))
+           end
+  | YRdFile t fail =>
+      match alookup t (yrd y), xmu x with
+      | Some (r, (v, i), None), None =>
+          if fail then ({| yx := x; ymg := ymg y; yrd := aremove t (yrd y) |}, OReadErr)
+          else ({| yx := x; ymg := ymg y; yrd := (t, (r, (v, i), Some (content d v i))) :: aremove t (yrd y) |}, OM (ORes (Ok tt)))
+      | _, _ => (y, ODBad)
+      end
+  | YRdCache t =>
+      match alookup t (yrd y) with
+      | Some (r, _, Some c) =>
+          ({| yx := {| xd := with_cache d (cadd (csize d) r c (cache d)); xmu := xmu x; xlost := xlost x |};
+              ymg := ymg y; yrd := aremove t (yrd y) |}, ORead false c)
+      | _ => (y, ODBad)
+      end
+  end.
+
+(* the deadlock of the code as it is: RemoveSector holds vm.mu and waits for the connection, the
+   migration transaction holds the connection and waits for vm.mu *)
+Definition deadlocked (y : ystate) : bool :=
+  match xmu (yx y), ymg y with
+  | Some (_, _, RsLocated), Some m => match mg_ph m with MgBegun | MgRead => true | _ => false end
+  | _, _ => false
+  end.
+
+Definition ycase := (N * N * list (yop * dobs))%type.   (* id, cache size, steps *)
+
+Fixpoint yfirst_mismatch (y : ystate) (i : nat) (l : list (yop * dobs)) : option (nat * dobs) :=
+  match l with
+  | [] => None
+  | (o, seen) :: t =>
+      let '(y', m) := ystep y o in
+      if dobs_eqb m seen then yfirst_mismatch y' (S i) t else Some (i, m)
+  end.
+
+Fixpoint ycheck (cs : list ycase) : list (N * nat * dobs) :=
+  match cs with
+  | [] => []
+  | (id, size, l) :: t =>
+      match yfirst_mismatch (yinit size) 0 l with
+      | None => ycheck t
+      | Some (i, m) => (id, i, m) :: ycheck t
       end
   end.
